@@ -362,7 +362,39 @@ func runC41Scope(c *core.Check) {
 				id, ok := y.(*ast.Ident)
 				return ok && info.Uses[id] == baseAST
 			})
-			if mentionsBase && nit(lit.Body, info, 0) {
+			// the predicate refuses when a containment test against the base AST fails: `!F(baseAST, key)` (or a
+			// ScopeAST comparison) somewhere in a condition — a positive use such as "the key lies under a glob of
+			// the base AST" does not establish that the key belongs to the board
+			refusesOutside := false
+			ast.Inspect(lit.Body, func(y ast.Node) bool {
+				switch x := y.(type) {
+				case *ast.UnaryExpr:
+					if x.Op != token.NOT {
+						return true
+					}
+					call, ok := ast.Unparen(x.X).(*ast.CallExpr)
+					if !ok {
+						return true
+					}
+					passesBase := false
+					for _, a := range call.Args {
+						if core.ObjOf(info, a) == baseAST {
+							passesBase = true
+						}
+					}
+					if callee := core.CalleeOf(info, call); passesBase && callee != nil && callee.Pkg() == pk.Types {
+						if h := c.P.Decl(callee); h != nil && h.Decl.Body != nil && nit(h.Decl.Body, h.Pkg.TypesInfo, 1) {
+							refusesOutside = true
+						}
+					}
+				case *ast.BinaryExpr:
+					if (x.Op == token.EQL || x.Op == token.NEQ) && (strings.HasSuffix(exprStr(x.X), ".ScopeAST") || strings.HasSuffix(exprStr(x.Y), ".ScopeAST")) {
+						refusesOutside = true
+					}
+				}
+				return true
+			})
+			if mentionsBase && refusesOutside {
 				scopePreds[core.ObjOf(info, as.Lhs[0])] = true
 			}
 		}
